@@ -33,6 +33,7 @@ type handle struct {
 	e     *list.Element
 	state int
 	owner int
+	last  int // list it was removed from last (hRemoved), for the coverage counters
 }
 
 func (h *handle) val() int {
@@ -79,6 +80,47 @@ const (
 var dopName = [...]string{"PushFront", "PushBack", "InsertBefore", "InsertAfter", "PushFrontNode", "PushBackNode",
 	"InsertNodeBefore", "InsertNodeAfter", "Remove", "MoveToFront", "MoveToBack", "MoveBefore", "MoveAfter",
 	"PushBackDList", "PushFrontDList", "Init", "SetValue"}
+
+// argument classes of a node / mark argument relative to the receiver list
+const (
+	aLive = iota
+	aForeign
+	aRemoved
+	aFresh
+	aRetired
+	nArgClasses
+)
+
+var argClassName = [...]string{"member", "member-of-another-list", "removed", "never-inserted", "orphaned-by-another-lists-Init"}
+var argRoleName = [...]string{"node", "mark"}
+
+// dargName[op][role][class] = "dlist_arg/<Op>/<node|mark>/<class>": which operation was given
+// which kind of handle in which argument position (floors in main.go: every named operation
+// of the statement really meets every kind of handle the quantifier names).
+var dargName = func() (t [nDOps][2][nArgClasses]string) {
+	for o := range t {
+		for r := range t[o] {
+			for a := range t[o][r] {
+				t[o][r][a] = "dlist_arg/" + dopName[o] + "/" + argRoleName[r] + "/" + argClassName[a]
+			}
+		}
+	}
+	return
+}()
+
+func (s *dsut) argClass(h *handle, k int) int {
+	switch {
+	case s.member(h, k):
+		return aLive
+	case h.state == hLive:
+		return aForeign
+	case h.state == hRemoved:
+		return aRemoved
+	case h.state == hFresh:
+		return aFresh
+	}
+	return aRetired
+}
 
 type dop struct {
 	code int
@@ -234,6 +276,16 @@ func (s *dsut) usable(h *handle, k int) bool {
 	return h != nil && !(h.state == hRetired && h.owner == k)
 }
 
+// countReinsert: a node that was removed earlier goes back into a list (the one it left, or another one).
+func (s *dsut) countReinsert(op dop, k int) {
+	c := s.c
+	c.Add("dlist_node_reinserted_after_removal", 1)
+	c.Add("dlist_node_reinserted_after_removal/"+dopName[op.code], 1)
+	if op.h.last != k {
+		c.Add("dlist_node_reinserted_into_another_list", 1)
+	}
+}
+
 // apply performs one operation on golib and on the model and compares all observable state.
 func (s *dsut) apply(op dop) bool {
 	c := s.c
@@ -264,20 +316,22 @@ func (s *dsut) apply(op dop) bool {
 	if !s.quiet {
 		c.Add("dlist_ops", 1)
 		c.Add("dlist_op/"+dopName[op.code], 1)
-		for _, h := range []*handle{op.h, op.m} {
+		for role, h := range [2]*handle{op.h, op.m} {
 			if h == nil || op.code == oSetValue {
 				continue
 			}
-			switch {
-			case s.member(h, k):
+			a := s.argClass(h, k)
+			c.Add(dargName[op.code][role][a], 1)
+			switch a {
+			case aLive:
 				c.Add("dlist_handle_live", 1)
-			case h.state == hLive:
+			case aForeign:
 				c.Add("dlist_handle_foreign", 1)
-			case h.state == hRemoved:
+			case aRemoved:
 				c.Add("dlist_handle_removed", 1)
-			case h.state == hFresh:
+			case aFresh:
 				c.Add("dlist_handle_fresh", 1)
-			case h.state == hRetired:
+			case aRetired:
 				c.Add("dlist_handle_retired_other_list", 1)
 			}
 		}
@@ -338,7 +392,7 @@ func (s *dsut) apply(op dop) bool {
 			return false
 		}
 		if op.h.state == hRemoved {
-			c.Add("dlist_node_reinserted_after_removal", 1)
+			s.countReinsert(op, k)
 		}
 		v := op.h.val()
 		if !c.Guard(name, func() {
@@ -380,7 +434,7 @@ func (s *dsut) apply(op dop) bool {
 		}
 		if ne != nil {
 			if op.h.state == hRemoved {
-				c.Add("dlist_node_reinserted_after_removal", 1)
+				s.countReinsert(op, k)
 			}
 			s.rebind(op.h, ne, k)
 			s.nontriv++
@@ -403,7 +457,7 @@ func (s *dsut) apply(op dop) bool {
 			return false
 		}
 		if s.member(op.h, k) {
-			op.h.state, op.h.owner = hRemoved, -1
+			op.h.state, op.h.owner, op.h.last = hRemoved, -1, k
 			c.Add("dlist_remove_effective", 1)
 			s.nontriv++
 		} else {
@@ -463,9 +517,14 @@ func (s *dsut) apply(op dop) bool {
 			c.Add("dlist_self_copy", 1)
 			if ml.Len() > 0 {
 				c.Add("dlist_self_copy_nonempty", 1)
+				c.Add("dlist_self_copy_nonempty/"+dopName[op.code], 1)
 			}
 		} else {
 			c.Add("dlist_other_copy", 1)
+			c.Add("dlist_other_copy/"+dopName[op.code], 1)
+			if s.zero[op.j] {
+				c.Add("dlist_copy_source_untouched_zero_value", 1)
+			}
 		}
 		if s.ml[op.j].Len() > 0 {
 			s.nontriv++
@@ -558,6 +617,9 @@ func (s *dsut) checkList(k int) bool {
 		want = append(want, e)
 	}
 	wantVals := s.modelValues(k)
+	if s.zero[k] {
+		c.Add("dlist_untouched_zero_value_observed", 1)
+	}
 	var n int
 	if !c.Guard("DList.Len", func() { n = gl.Len() }) {
 		return false
@@ -682,6 +744,7 @@ func (s *dsut) checkDetached(h *handle) bool {
 		return false
 	}
 	s.c.Add("dlist_detached_nav_checked", 1)
+	s.c.Add("dlist_detached_nav_checked/"+stateName[h.state], 1)
 	return true
 }
 
